@@ -158,7 +158,7 @@ def run(c, a):
         only = [rp_obj["case"]["transport"]]
     else:
         only = sorted(TRANSPORTS)
-    reps = 5 if thorough and not a.replay else 1
+    reps = 12 if thorough and not a.replay else 1
     cases = []
     for rep in range(reps):
         for tr in only:
@@ -216,9 +216,9 @@ def run(c, a):
     for ln, clause in viol:
         e = events[ln - 1]
         sig = {"module": "TlsAdmit", "clause": clause, "role": e["cfg"]["role"], "cause": cause_of(clause, e),
-               "cred": e["cred"]["class"]}
+               "cred": e["cred"]["class"] if clause in ("admitted-unacceptable", "rejected-acceptable") else "-"}
         groups.setdefault(json.dumps(sig, sort_keys=True), (sig, []))[1].append(e)
-    new = 0
+    new, sigs = 0, []
     for key in sorted(groups):
         sig, evs = groups[key]
         e = min(evs, key=lambda x: (x["transport"], x["rep"], json.dumps(x["cfg"], sort_keys=True),
@@ -230,8 +230,9 @@ def run(c, a):
                    json.dumps({k: e["peer"][k] for k in ("hs", "byte")}), len(evs),
                    ",".join(sorted(set(x["transport"] for x in evs)))))
         case = {k: e[k] for k in ("transport", "cfg", "cred")}
-        if c.violation(sig, what, {"kind": "tls-case", "signature": sig, "case": case, "record": e}):
-            new += 1
+        is_new = c.violation(sig, what, {"kind": "tls-case", "signature": sig, "case": case, "record": e})
+        new += 1 if is_new else 0
+        sigs.append(dict(sig, records=len(evs), known=not is_new))
     if conforms == "neither" and not viol:
         ln = (off_pinned + off_fixed)[0]
         raise Broken("the tree matches neither code model of TlsAdmitRules.tla although no clause of C19 is violated "
@@ -240,6 +241,16 @@ def run(c, a):
         c.notes.append("the tree conforms to the ClientAuthFix = TRUE model: the pinned-model counterexample is obsolete")
     if conforms == "pinned" and rp.violated and not viol and not a.replay:
         raise Broken("TLC counterexample of the pinned model not reproduced although the tree conforms to it")
+    if a.replay:    # a single case: verdict only, the committed evidence stays that of the last full run
+        for k in c.known_hits:
+            print("KNOWN-FINDING: property=%s %s [%s]" % (c.pid, k["what"], k["id"]), flush=True)
+        for v in c.violations:
+            log("violation:", v["what"])
+        if c.violations:
+            print("VIOLATION property=%s replay=%s" % (c.pid, a.replay), flush=True)
+            return 1
+        log("replayed case %s: no new violation" % json.dumps(cases[0]))
+        return 0
     # ---- evidence
     executed = [e for e in events if e["startup"] == "ready"]
     distinct = set((e["transport"], json.dumps(e["cfg"], sort_keys=True), json.dumps(e["cred"], sort_keys=True))
@@ -261,6 +272,11 @@ def run(c, a):
         "cross_product": len(base), "transports": only, "repetitions": reps,
         "handshakes_attempted": len(executed), "by_transport_role": by_tr,
         "violating_records": len(viol), "violation_groups": len(groups), "new_violation_groups": new,
+        "violation_signatures": sigs,
+        # observation, not a clause of C19: remoteCAPath given and verification not skipped, but neither certificate nor
+        # caServerName -> TLSConfig.IsEnabled() is false and the endpoint silently runs without TLS
+        "disabled_although_ca_bundle_and_verify": sum(1 for e in events if e["startup"] == "disabled"
+                                                      and e["cfg"]["verify"] and e["cfg"]["ca"] == "caA"),
         "conforms_to_code_model": conforms, "records_off_pinned_model": len(off_pinned),
         "records_off_fixed_model": len(off_fixed),
     })
